@@ -220,6 +220,123 @@ pub fn run() -> i32 {
         }
     });
     ctx.absorb("object-api", st);
+    // Config builder: every sequence of up to 4 setter calls (8-member alphabet: each of the
+    // four setters with two values) from every base constructor. The model is "last write to
+    // a field wins, other fields keep their value"; the Config is observed through its Debug
+    // rendering and, wherever the resulting cost is small, through the hash it produces.
+    {
+        #[derive(Clone, Copy, PartialEq, Debug)]
+        struct M {
+            hl: usize,
+            mem: usize,
+            ops: u64,
+            sl: usize,
+        }
+        const OPS: [(&str, usize); 8] = [("hash_length", 80), ("hash_length", 17), ("memlimit", 9216), ("memlimit", 13 * 1024), ("opslimit", 1), ("opslimit", 3), ("salt_length", 24), ("salt_length", 9)];
+        fn apply(c: Config, m: &mut M, op: usize) -> Config {
+            let (f, v) = OPS[op];
+            match f {
+                "hash_length" => {
+                    m.hl = v;
+                    c.with_hash_length(v)
+                }
+                "memlimit" => {
+                    m.mem = v;
+                    c.with_memlimit(v)
+                }
+                "opslimit" => {
+                    m.ops = v as u64;
+                    c.with_opslimit(v as u64)
+                }
+                _ => {
+                    m.sl = v;
+                    c.with_salt_length(v)
+                }
+            }
+        }
+        fn field(dbg: &str, name: &str) -> Option<u64> {
+            let i = dbg.find(&format!("{}: ", name))? + name.len() + 2;
+            let d: String = dbg[i..].chars().take_while(|c| c.is_ascii_digit()).collect();
+            d.parse().ok()
+        }
+        let bases: [(&str, fn() -> Config, M); 4] = [
+            ("interactive", Config::interactive, M { hl: 32, mem: 64 << 20, ops: 2, sl: 16 }),
+            ("default", Config::default, M { hl: 32, mem: 64 << 20, ops: 2, sl: 16 }),
+            ("moderate", Config::moderate, M { hl: 32, mem: 256 << 20, ops: 3, sl: 16 }),
+            ("sensitive", Config::sensitive, M { hl: 32, mem: 1 << 30, ops: 4, sl: 16 }),
+        ];
+        let mut seqs: Vec<Vec<usize>> = vec![vec![]];
+        let mut layer: Vec<Vec<usize>> = vec![vec![]];
+        for _ in 0..4 {
+            let mut next = vec![];
+            for s in &layer {
+                for o in 0..8 {
+                    let mut t = s.clone();
+                    t.push(o);
+                    next.push(t);
+                }
+            }
+            seqs.extend(next.iter().cloned());
+            layer = next;
+        }
+        let units: Vec<(usize, usize)> = (0..4).flat_map(|b| (0..seqs.len()).map(move |i| (b, i))).collect();
+        let pwd = cval(seed, 3, 7);
+        let st = par_units(&units, |&(bi, si), st| {
+            let (bname, mk, m0) = bases[bi];
+            let mut m = m0;
+            let mut cfg = mk();
+            for &o in &seqs[si] {
+                cfg = apply(cfg, &mut m, o);
+            }
+            let dbg = format!("{:?}", cfg);
+            let seen = (field(&dbg, "hash_length"), field(&dbg, "memlimit"), field(&dbg, "opslimit"), field(&dbg, "salt_length"));
+            let names: Vec<String> = seqs[si].iter().map(|&o| format!("with_{}({})", OPS[o].0, OPS[o].1)).collect();
+            let mut bad: Option<String> = None;
+            let oc;
+            if let (Some(a), Some(b), Some(c), Some(d)) = seen {
+                if (a as usize, b as usize, c, d as usize) != (m.hl, m.mem, m.ops, m.sl) {
+                    bad = Some(format!("Config::{}().{} holds {} but the calls set hash_length={} memlimit={} opslimit={} salt_length={}", bname, names.join("."), dbg, m.hl, m.mem, m.ops, m.sl));
+                }
+                oc = "config-fields==model";
+            } else {
+                oc = "config-debug-unreadable";
+            }
+            st.eval(&("cfg", bi, si), true, oc);
+            // the hash itself wherever it is cheap: memory set by the sequence, length <= 3
+            if bad.is_none() && m.mem <= (16 << 20) && seqs[si].len() <= 3 && bi < 2 {
+                let salt = kval(seed ^ 0x9, 3, m.sl);
+                let c2 = cfg.clone();
+                let (p2, s2) = (pwd.clone(), salt.clone());
+                let r = guarded(AssertUnwindSafe(move || {
+                    let h: PwHash<Vec<u8>, Vec<u8>> = PwHash::hash_with_salt(&p2, s2, c2.clone()).unwrap();
+                    let g: PwHash<Vec<u8>, Vec<u8>> = PwHash::hash(&p2, c2).unwrap();
+                    let (gh, gs, _) = g.into_parts();
+                    (h.into_parts().0, gh, gs)
+                }));
+                let want = sodium::argon2_raw(m.ops as u32, (m.mem / 1024) as u32, &pwd, &salt, m.hl, 2, false).1;
+                match r {
+                    Ok((h, gh, gs)) => {
+                        let want2 = sodium::argon2_raw(m.ops as u32, (m.mem / 1024) as u32, &pwd, &gs, m.hl, 2, false).1;
+                        if h != want {
+                            bad = Some(format!("Config::{}().{}: hash_with_salt gives a {}-byte hash that is not argon2id(t={}, m={} KiB, {} bytes) of libsodium", bname, names.join("."), h.len(), m.ops, m.mem / 1024, m.hl));
+                        } else if gs.len() != m.sl || gh != want2 {
+                            bad = Some(format!("Config::{}().{}: PwHash::hash chose a {}-byte salt (set: {}) / its hash differs from libsodium over that salt", bname, names.join("."), gs.len(), m.sl));
+                        }
+                    }
+                    Err(p) => bad = Some(format!("Config::{}().{}: hashing failed: {}", bname, names.join("."), p)),
+                }
+                st.eval(&("cfg-hash", bi, si), true, if bad.is_none() { "config-hash==libsodium" } else { "config-hash-differs" });
+            }
+            if let Some(w) = bad {
+                st.fail(Fail { check: "C09.argon2".into(), signature: format!("C09/object/config-builder/{}", seqs[si].last().map(|&o| OPS[o].0).unwrap_or("base")), what: w, case: json!({"kind": "reject"}) });
+            }
+            if bi == 0 && si == 100 {
+                st.sample(json!({"config_sequence": names, "base": bname}));
+            }
+        });
+        ctx.note("config_builder", json!({"bases": ["interactive", "default", "moderate", "sensitive"], "alphabet": OPS.iter().map(|(f, v)| format!("with_{}({})", f, v)).collect::<Vec<_>>(), "max_sequence_length": 4, "sequences_per_base": seqs.len(), "hashes": "every sequence of length <= 3 that sets the memory limit, from interactive/default, through hash_with_salt and hash (generated salt)"}));
+        ctx.absorb("config-builder", st);
+    }
     // the preset entry points of the object API (real costs: 64 MiB / 256 MiB / 1 GiB)
     let mut st = Stats::new();
     let presets: Vec<(&str, u32, u32)> = match tier {
